@@ -24,8 +24,8 @@ Beh_Clamp == {[l \in L |-> IF l = "l2" THEN <<"clamp", p, "vb">> ELSE Nop] : p \
 
 \* l1 raises when told about one property; l2 only listens, or clamps that same property (the exception then also
 \* comes out of a nested assignment, through l2's callback)
-Beh_Raise == {[l \in L |-> IF l = "l1" THEN <<"raise", p, "-">> ELSE Nop] : p \in Props}
-             \cup {[l \in L |-> IF l = "l1" THEN <<"raise", p, "-">> ELSE <<"clamp", p, "vb">>] : p \in Props}
+Beh_RaiseOnly == {[l \in L |-> IF l = "l1" THEN <<"raise", p, "-">> ELSE Nop] : p \in Props}
+Beh_Raise == Beh_RaiseOnly \cup {[l \in L |-> IF l = "l1" THEN <<"raise", p, "-">> ELSE <<"clamp", p, "vb">>] : p \in Props}
 
 Arg(t, p) == {Dflt} \cup (IF Scalar(t, p) THEN {N(i) : i \in Rot} ELSE VecVals)
 \* constructor calls of one transform: no argument / all three / only the rotation / all but the rotation
